@@ -298,4 +298,9 @@ class Emulation:
         return None
 
 
-TARGETS = {"codebasin.config:ArgumentParser.parse_args": Emulation()}
+from native.systarget import SysTarget      # noqa: E402
+
+TARGETS = {"codebasin.config:ArgumentParser.parse_args": Emulation(),
+           # "a line is attributed to a platform if any pass of any of its commands uses it": several commands per platform,
+           # forced includes, against the reference attribution
+           "codebasin.finder:find": SysTarget("commands", ("multi", "forced"), quick_n=120, thorough_n=2000)}
